@@ -1,6 +1,7 @@
 (* C18 - Geometry values compare, hash, parse and print consistently.
    Only statements closed by `exact`, each followed by Print Assumptions; Examples show non-vacuity. *)
 From Coq Require Import List ZArith QArith Qabs Bool.
+From PV Require Import model.Store model.GeomStore proofs.StoreFacts proofs.GeomStoreFacts proofs.GeomStoreValue.
 From PV Require Import lib.Sx lib.Str lib.Result model.Geometry model.GenGeom spec.SpecGeom.
 From PV Require Import proofs.GeomStr proofs.GeomEq proofs.GeomParse proofs.GeomPrint proofs.GeomLang proofs.GeomFacts.
 Import ListNotations.
@@ -192,3 +193,89 @@ Example C18_ex_norm :
   let b := mkLayout (Some (mkPoint (mkSize (2 # 4) PCT) (mkSize (20 # 2) PCT))) None None None None in
   a <> b /\ norm_layout a = norm_layout b /\ layout_eqb a b = true.
 Proof. split; [intros H; discriminate|split; vm_compute; reflexivity]. Qed.
+
+(* ---- heap level: relativizing or fitting returns a new value without modifying the receiver ----------------------
+   model/GeomStore.v: the methods on objects in a store (which objects are allocated, which references of the receiver go
+   into the result).  Geometry objects have no mutators; the precise statement is: the operations only allocate. *)
+Theorem C18_store_ops_allocate_only : forall w h v,
+  extends (size_pct_s v w h) /\ extends (point_pct_s v w h) /\ extends (stretch_pct_s v w h)
+  /\ extends (padding_pct_s v w h) /\ extends (layout_pct_s v w h) /\ extends (layout_fit_s v).
+Proof. exact geom_ops_allocate_only. Qed.
+Print Assumptions C18_store_ops_allocate_only.
+
+(* no location of the store the call starts in is assigned - whatever it is reachable from *)
+Theorem C18_store_no_location_assigned : forall A (m : SM A), extends m -> forall st st' a, m st = Ok (st', a) ->
+  forall l, (l < length st)%nat -> get st' l = get st l.
+Proof. exact extends_untouched. Qed.
+Print Assumptions C18_store_no_location_assigned.
+
+(* hence the identity-insensitive snapshot of the receiver (of any value of the old store) is the same after the call *)
+Theorem C18_store_receiver_snapshot_unchanged : forall v w h st st' r fuel x,
+  (layout_pct_s v w h st = Ok (st', r) \/ layout_fit_s v st = Ok (st', r)) ->
+  wf st -> below (length st) x -> snap fuel st' x = snap fuel st x.
+Proof. exact receiver_snapshot_unchanged. Qed.
+Print Assumptions C18_store_receiver_snapshot_unchanged.
+
+(* the result: Size.as_percentage_of and Layout.fit_to_screen return the receiver itself (percentage / no origin) or a new
+   object; Point / Stretch / Padding / Layout.as_percentage_of always return a new object *)
+Theorem C18_store_size_pct_self_or_new : forall v w h st st' r, size_pct_s v w h st = Ok (st', r) ->
+  (r = v /\ st' = st) \/ (exists l, r = VLoc l /\ (length st <= l)%nat).
+Proof. exact size_pct_self_or_new. Qed.
+Print Assumptions C18_store_size_pct_self_or_new.
+Theorem C18_store_layout_fit_self_or_new : forall v st st' r, layout_fit_s v st = Ok (st', r) ->
+  (r = v /\ st' = st) \/ (exists l, r = VLoc l /\ (length st <= l)%nat).
+Proof. exact layout_fit_self_or_new. Qed.
+Print Assumptions C18_store_layout_fit_self_or_new.
+Theorem C18_store_as_percentage_new_object : forall v w h,
+  fresh (point_pct_s v w h) /\ fresh (stretch_pct_s v w h) /\ fresh (padding_pct_s v w h) /\ fresh (layout_pct_s v w h).
+Proof. exact as_percentage_new_object. Qed.
+Print Assumptions C18_store_as_percentage_new_object.
+
+(* the VALUE of the result, Size level: the heap operation returns an object that decodes to Size.as_percentage_of of the
+   decoded receiver, and raises the same exception otherwise *)
+Theorem C18_store_size_pct_value : forall v w h st a, dec_size st v = Some a ->
+  match size_pct_s v w h st, size_as_pct a w h with
+  | Ok (st', r), Ok a' => dec_size st' r = Some a'
+  | Err e, Err e' => e = e'
+  | _, _ => False
+  end.
+Proof. exact size_pct_value. Qed.
+Print Assumptions C18_store_size_pct_value.
+
+(* ... and Layout level: on a well-formed store, the result of Layout.as_percentage_of / fit_to_screen decodes to the
+   value-level layout_as_pct / layout_fit of the decoded receiver (the functions C13's theorems are about); same exception
+   otherwise.  So the heap model refines the value model, and adds only allocation and sharing. *)
+Theorem C18_store_layout_pct_value : forall lv w h st l, wf st -> dec_layout st (VLoc lv) = Some l ->
+  match layout_pct_s (VLoc lv) w h st, layout_as_pct l w h with
+  | Ok (st', r), Ok l' => dec_layout st' r = Some l'
+  | Err e, Err e' => e = e'
+  | _, _ => False
+  end.
+Proof. exact layout_pct_value. Qed.
+Print Assumptions C18_store_layout_pct_value.
+Theorem C18_store_layout_fit_value : forall lv st l, wf st -> dec_layout st (VLoc lv) = Some l ->
+  match layout_fit_s (VLoc lv) st, layout_fit l with
+  | Ok (st', r), Ok l' => dec_layout st' r = Some l'
+  | Err e, Err e' => e = e'
+  | _, _ => False
+  end.
+Proof. exact layout_fit_value. Qed.
+Print Assumptions C18_store_layout_fit_value.
+
+(* which parts of the result are the receiver's own objects (1), other objects (0), None (2); paths: the layout, origin, x, y,
+   extent, horizontal, vertical, padding, before, after, start, end, alignment.  The decoded result is the value-level one. *)
+Example C18_ex_store_profile :
+  let l := mkLayout (Some (mkPoint (mkSize (64 # 1) PX) (mkSize (10 # 1) PCT))) (Some (mkStretch (mkSize (50 # 1) PCT) (mkSize (99 # 1) PCT)))
+                    None (Some (mkAlign (Some HLeft) None)) (Some (lit "line:1")) in
+  layout_op_profile 0 (Some (640 # 1)) (Some (360 # 1)) l
+    = Ok (Some (mkLayout (Some (mkPoint (mkSize (10 # 1) PCT) (mkSize (10 # 1) PCT))) (l_extent l) None (l_alignment l) None),
+          [0; 0; 0; 1; 0; 1; 1; 2; 2; 2; 2; 2; 1])
+  /\ match layout_as_pct l (Some (640 # 1)) (Some (360 # 1)), layout_op_profile 0 (Some (640 # 1)) (Some (360 # 1)) l with
+     | Ok a, Ok (Some b, _) => a = b | _, _ => False end
+  /\ layout_op_profile 1 None None (mkLayout (Some (mkPoint (mkSize (10 # 1) PCT) (mkSize (10 # 1) PCT))) (l_extent l) None (l_alignment l) None)
+    = Ok (Some (mkLayout (Some (mkPoint (mkSize (10 # 1) PCT) (mkSize (10 # 1) PCT)))
+                         (Some (mkStretch (mkSize (50 # 1) PCT) (mkSize (85 # 1) PCT))) None (l_alignment l) None),
+          [0; 1; 1; 1; 0; 1; 0; 2; 2; 2; 2; 2; 1])
+  /\ layout_op_profile 1 None None (mkLayout None (l_extent l) None None None) = Ok (Some (mkLayout None (l_extent l) None None None),
+          [1; 2; 2; 2; 1; 1; 1; 2; 2; 2; 2; 2; 2]).
+Proof. vm_compute. repeat split. Qed.
